@@ -407,7 +407,7 @@ def gen_stop(seed, k):
     sc.config = base_config(P, K, G, extra, threads=4, leak=(1500 if phase == "drain" else 200))
     sc.signals = sigs
     sc.timeout_s = 12
-    sc.meta = {"tests": tests, "family": "stop", "phase": phase, "P": P, "K": K, "G": G}
+    sc.meta = {"tests": tests, "family": "stop", "phase": phase, "P": P, "K": K, "G": G, "leak": 1500 if phase == "drain" else 200}
     return sc
 
 
@@ -443,7 +443,10 @@ def mon_stop(sc, r):
             # the process is gone, a descendant holds the pipes: the result and the exit status must not change, nothing may hang or fail
             if res not in ("P", "L"): V("result", f"[{phase}] test {t['name']} exited 0 and its handles were closed {t['hold_ms']} ms later (leak timeout 1500 ms) but is reported {res}")
             if res == "L": V("result-drain", f"[{phase}] test {t['name']}: handles closed {t['hold_ms']} ms after exit, inside the 1500 ms leak timeout, but a stop of {stopped_ms:.0f} ms while nextest was draining them turned the result into LEAK")
-            if taken > t["exit_ms"] + t["hold_ms"] + 350: V("duration-drain", f"[{phase}] test {t['name']}: reported duration {taken} ms; the process ran {t['exit_ms']} ms and its handles were closed {t['hold_ms']} ms later; {stopped_ms:.0f} ms spent stopped must be excluded")
+            fin_ns = events_for(r, "TestFinished", key)[-1][0]
+            wall = ms(fin_ns - p["start"])
+            if t_stop and t_cont and p["start"] < t_stop and t_cont < fin_ns and taken > wall - stopped_ms + 300:
+                V("duration-drain", f"[{phase}] test {t['name']}: reported duration {taken} ms; {wall:.0f} ms passed between its start and its end, of which nextest was stopped for {stopped_ms:.0f} ms (while draining the handles of the exited process): time spent stopped must be excluded from reported durations")
             continue
         if alive_during_stop and kind not in ("delay", "second_shutdown"):
             gaps = [g for (_, g) in p.get("gaps", [])]
@@ -663,6 +666,13 @@ def unit_events(sc, r, t, p):
             elif kind == "hang_exit": rest = max(0, t["deadline"] - ran)
             else: rest = max(0, t["deadline"] + G - ran)
             return ("spawn", P, K, G, ev + [f"t{rest}", "X", "F"])
+        if phase == "drain" and ts and tc and kind == "drain" and p.get("end"):
+            # the process exits, nextest drains its handles (held by a descendant), is stopped and continued meanwhile; the handles
+            # are closed `hold_ms` after the exit — seen by nextest then, or on resumption if that falls into the stop
+            ex = rel(p["end"][1]); a = max(ex, rel(ts)); st = int(round(ms(tc - ts)))
+            closed = ex + t["hold_ms"]
+            rest = max(0, closed - (a + st))
+            return ("spawn", P, K, G, [f"t{ex}", "X", f"t{a - ex}", "S", f"t{st}", "C", f"t{rest}", "F"])
         if phase == "delay" and ts and tc and kind == "delay":
             return None   # handled by delay_events
     if fam == "sig" and m["phase"] == "running" and kind in ("run_die", "run_ign", "run_late"):
@@ -691,7 +701,7 @@ def mon_model(sc, r):
         ue = unit_events(sc, r, t, ps[0])
         if ue is None: continue
         start, P, K, G, ev = ue
-        reqs.append((t, ps[0], f"unit {start} {P} {K if K else '-'} {G} 200 {','.join(ev)}"))
+        reqs.append((t, ps[0], f"unit {start} {P} {K if K else '-'} {G} {sc.meta.get('leak', 200)} {','.join(ev)}"))
     if not reqs: return out
     try: answers = vlib.run_driver([q for (_, _, q) in reqs])
     except RuntimeError as e: return [dict(mix.viol(sc, r, "machinery", f"model driver failed: {e}"), machinery=True)]
